@@ -1659,6 +1659,28 @@ def C01(tier):
                                 bad = bad or 'stream stored with read=True is read back differently (handle)'
                         if c.get('s') != payload:
                             bad = bad or 'stream stored with read=True is read back differently (get)'
+
+                        # a stream may hand out fewer bytes than asked for before its end (pipes, sockets,
+                        # decompressors): everything up to the first EMPTY read is the value
+                        class Dribble(io.RawIOBase):
+                            def __init__(self, data, step):
+                                self.data, self.step, self.pos = data, step, 0
+
+                            def readable(self):
+                                return True
+
+                            def read(self, n=-1):
+                                k = self.step if n is None or n < 0 else min(n, self.step)
+                                chunk = self.data[self.pos:self.pos + k]
+                                self.pos += len(chunk)
+                                return chunk
+                        for step in (1, 7, 1000, 4096):
+                            cases += 1
+                            small = payload[:3000]
+                            c.set('d', Dribble(small, step), read=True)
+                            if c.get('d') != small:
+                                bad = bad or 'a stream that returns at most %d bytes per read() was stored as %d of its %d bytes' % (
+                                    step, len(c.get('d') or b''), len(small))
                 finally:
                     shutil.rmtree(d, ignore_errors=True)
     return [result('C01.standin.value_corpus', bad is None,
